@@ -1,4 +1,4 @@
-\* quick, safety: the dialer node at the code's grain, every interleaving, no clocks; the listener side is an adversary (2 moves)
+\* full, safety: dialer node, adversary with 2 moves, the link may go silent and heal
 SPECIFICATION Spec
 CONSTANTS
   Links = {1}
@@ -12,7 +12,7 @@ CONSTANTS
   Coarse = FALSE
   RealNodes = {"a"}
   CancelOnReturn = TRUE
-  BSilence = 0
+  BSilence = 1
   BCut = 0
   ShutNodes = {}
   CancelNodes = {}
